@@ -191,6 +191,9 @@ func chainMutations(purpose string) []chainMut {
 		s[p].CN = s[p+1].CN
 		s[p].KeyID = s[p+1].KeyID
 	})
+	// key roll-over: an intermediate that names itself as issuer (same name as its parent) but is signed by the parent's other key:
+	// self-issued, not self-signed. Nothing in the specification exempts it from anything.
+	add("self-issued-intermediate", true, "nonroot-ca", func(s []*CertSpec, p int) { s[p].CN = s[p+1].CN })
 	add("root-not-self-issued", false, "root", func(s []*CertSpec, p int) { s[p].IssuerCN = "higher-root" })
 	return m
 }
@@ -382,6 +385,26 @@ func genChain(r *Runner, purpose string) {
 						jobs = append(jobs, chainJob{purpose: purpose, n: n, stKind: fmt.Sprintf("%d:%s:%d", ci, b, d), label: "signing-time-narrow", narrow: true})
 					}
 				}
+			}
+		}
+	}
+	// 3b. a self-issued intermediate below a CA whose path length is exact / one too small, at every pair of positions
+	byName := map[string]chainMut{}
+	for _, m := range muts {
+		byName[m.name] = m
+	}
+	for n := 3; n <= maxN; n++ {
+		for p := 1; p < n-1; p++ {
+			for q := p + 1; q < n; q++ {
+				for _, pl := range []string{"ca-pathlen-exact", "ca-pathlen-below-minus1", "ca-pathlen-plus1"} {
+					jobs = append(jobs, chainJob{purpose: purpose, n: n, muts: []chainMut{byName["self-issued-intermediate"], byName[pl]}, poss: []int{p, q},
+						stKind: "nil", label: "self-issued-x-pathlen"})
+				}
+			}
+			// two self-issued intermediates in a row where the chain allows it
+			if p+1 < n-1 {
+				jobs = append(jobs, chainJob{purpose: purpose, n: n, muts: []chainMut{byName["self-issued-intermediate"], byName["self-issued-intermediate"], byName["ca-pathlen-below-minus1"]},
+					poss: []int{p + 1, p, n - 1}, stKind: "nil", label: "self-issued-x-pathlen"})
 			}
 		}
 	}
